@@ -488,13 +488,7 @@ func main() {
 			"TEST, not proof: panics/hangs/allocation of the Go codec loops (VP8/VP8L/ALPH decoders, animation compositing) are covered only by this malformed-stream run",
 			fmt.Sprintf("pixel-decoding entry points are skipped when any header in the input declares more than %d pixels (counted as skipped-declared-large)", maxDeclaredArea))
 
-		dfx := 0
 		witness := []byte("RIFF\x02\x00\x00\x00WEBPVP8 ")
-		if l, _ := muxh.DemuxLine(witness); l != "panic" {
-			dfx = 1
-		}
-		c.Count(fmt.Sprintf("variant-demux%d", dfx))
-
 		total := 10000
 		if c.Thorough() {
 			total = 60000
@@ -511,7 +505,7 @@ func main() {
 			} else {
 				kind, b = mutate(mrng, seeds)
 			}
-			evalInput(c, kind, b, dfx)
+			evalInput(c, kind, b)
 		}
 	})
 }
@@ -520,7 +514,7 @@ func isRiffSizeClass(b []byte) bool {
 	return len(b) >= 12 && string(b[0:4]) == "RIFF" && string(b[8:12]) == "WEBP" && binary.LittleEndian.Uint32(b[4:8]) < 4
 }
 
-func evalInput(c *Ctx, kind string, b []byte, dfx int) {
+func evalInput(c *Ctx, kind string, b []byte) {
 	c.D.Evaluations++
 	c.Count("mut-" + kind)
 	hx := "-"
@@ -529,7 +523,7 @@ func evalInput(c *Ctx, kind string, b []byte, dfx int) {
 	}
 	// correspondence with the demuxer model (outcome class + every accessor)
 	line, _ := muxh.DemuxLine(b)
-	c.Case(fmt.Sprintf("demux %d %s", dfx, hx), line)
+	c.Case("demux "+hx, line)
 	c.Count("demux-" + line[:minInt(len(line), 5)])
 
 	big := declaredArea(b) > maxDeclaredArea
